@@ -58,10 +58,14 @@ def sig_of_callee(path):
     return "call:" + s
 
 
+DISCHARGED = []
+
+
 def census(F, pkgs):
     """-> dict[(body_path, sig)] = [ (line, detail) ... ], and list of unclassified (body, callee, line)"""
     out = collections.defaultdict(list)
     unclassified = []
+    del DISCHARGED[:]
     nbodies = 0
     ncalls = 0
     for b in F.bodies.values():
@@ -77,6 +81,14 @@ def census(F, pkgs):
             if m["ak"] in ("DivisionByZero", "RemainderByZero") and (lib.op_const_int(m["a"]) or 0) != 0:
                 # D-const: the divisor is a non-zero compile-time constant; the assert cannot fire
                 continue
+            if m["ak"] == "BoundsCheck":
+                # D-length: constant index below every length the slice can have here (length tests on all paths of this function and,
+                # for private functions, of all its callers - rules/lenfacts.py)
+                import lenfacts
+                why = lenfacts.constant_index_safe(F, F.callgraph(), b, t, i)
+                if why:
+                    DISCHARGED.append((b.path, "D-length", why))
+                    continue
             sig = "assert:%s:%s:%s" % (m["ak"], m.get("op") or "-", m.get("ty") or "-")
             out[(b.path, sig)].append((t["line"], t["file"]))
         for i, t in b.calls():
